@@ -278,6 +278,10 @@ class DefaultCollectionManager(CollectionManager[K]):
             self._tables.collection, [self._collectionIdName], {self._collectionIdName: record.key}
         )
         self._removeCachedRecord(record)
+        if self._caching_context.collection_summaries is not None:
+            # Summaries are cached by collection key, and the database may
+            # hand the key of a removed collection to the next one created.
+            self._caching_context.collection_summaries.clear()
 
     def find(self, name: str) -> CollectionRecord[K]:
         # Docstring inherited from CollectionManager.
